@@ -806,30 +806,27 @@ structure TidyS (s : St) : Prop where
   tidy : Tidy s.client
 
 theorem reRegister_spec (s : St) (t : TowerId) (h : TidyS s) :
-    TidyS (reRegister s t).1 ∧ pend (reRegister s t).1.client t = pend s.client t ∧
-    (reRegister s t).1.beh = s.beh := by
+    TidyS (reRegister s t).1 ∧ pend (reRegister s t).1.client t = pend s.client t := by
+  have hc : (s.towerRegisters t).client = s.client := towerRegisters_client s t
+  have htr : TidyS (s.towerRegisters t) ∧ pend (s.towerRegisters t).client t = pend s.client t :=
+    ⟨⟨by rw [hc]; exact h.inv, by rw [hc]; exact h.tidy⟩, by rw [hc]⟩
   have hreg : TidyS ((s.towerRegisters t).recordRegistration t) ∧
-      pend ((s.towerRegisters t).recordRegistration t).client t = pend s.client t ∧
-      ((s.towerRegisters t).recordRegistration t).beh = s.beh := by
-    have hc : (s.towerRegisters t).client = s.client := towerRegisters_client s t
-    have hb : (s.towerRegisters t).beh = s.beh := by unfold St.towerRegisters; split <;> rfl
+      pend ((s.towerRegisters t).recordRegistration t).client t = pend s.client t := by
     unfold St.recordRegistration
-    simp only [hc, hb]
-    refine ⟨⟨h.inv.addUpdateTower t t _, fun x => (addUpdateTower_tidy s.client t t _ x (h.tidy x)).1⟩,
-      (addUpdateTower_tidy s.client t t _ t (h.tidy t)).2.1, trivial⟩
+    simp only [hc]
+    exact ⟨⟨h.inv.addUpdateTower t t _, fun x => (addUpdateTower_tidy s.client t t _ x (h.tidy x)).1⟩,
+      (addUpdateTower_tidy s.client t t _ t (h.tidy t)).2.1⟩
   unfold reRegister
   split
   · split
-    · exact ⟨h, rfl, rfl⟩
+    · exact ⟨h, rfl⟩
     · split
-      · exact ⟨h, rfl, rfl⟩
-      · have hc : (s.towerRegisters t).client = s.client := towerRegisters_client s t
-        have hb : (s.towerRegisters t).beh = s.beh := by unfold St.towerRegisters; split <;> rfl
-        exact ⟨⟨by rw [hc]; exact h.inv, by rw [hc]; exact h.tidy⟩, by rw [hc], hb⟩
+      · exact ⟨h, rfl⟩
+      · exact htr
       · split
         · exact hreg
-        · exact ⟨h, rfl, rfl⟩
-  · exact ⟨h, rfl, rfl⟩
+        · exact htr
+  · exact ⟨h, rfl⟩
 
 theorem consume_beh_client (s : St) (t : TowerId) : (s.consume t).client = s.client := consume_client s t
 
@@ -848,7 +845,7 @@ theorem runOnce_spec (s : St) (t : TowerId) (locs : List Loc) (h : TidyS s)
   · rename_i s1 r heq
     rw [heq] at hr kr
     simp only at hr
-    refine ⟨hr.1, ?_, fun _ => hr.2.1, kr.known h.inv t hk⟩
+    refine ⟨hr.1, ?_, fun _ => hr.2, kr.known h.inv t hk⟩
     intro hok
     -- the re-registration never reports success by itself
     exfalso
@@ -863,13 +860,13 @@ theorem runOnce_spec (s : St) (t : TowerId) (locs : List Loc) (h : TidyS s)
     rw [heq] at hr kr
     simp only at hr
     have hk1 := kr.known h.inv t hk
-    have hl1 : ∀ l ∈ locs, l ∈ pend s1.client t := by intro l hl'; rw [hr.2.1]; exact hl l hl'
+    have hl1 : ∀ l ∈ locs, l ∈ pend s1.client t := by intro l hl'; rw [hr.2]; exact hl l hl'
     obtain ⟨a, b, c, d⟩ := sendAll_spec t (classify (s1.beh t)) locs s1.client hr.1.inv hr.1.tidy hk1 hl1
     have hcc : ∀ (x : St) (cl : Client), ((x.withClient cl).consume t).client = cl := by
       intro x cl; rw [consume_client]; rfl
     refine ⟨⟨by rw [hcc]; exact a, by rw [hcc]; exact b⟩, ?_, ?_, ?_⟩
-    · intro hok; rw [hcc, c hok, hr.2.1]
-    · intro htr; rw [hcc, d htr, hr.2.1]
+    · intro hok; rw [hcc, c hok, hr.2]
+    · intro htr; rw [hcc, d htr, hr.2]
     · rw [hcc]; exact (keeps_sendAll t _ locs s1.client).known hr.1.inv t hk1
 
 theorem runRetrier_spec (t : TowerId) (locs : List Loc) : ∀ (fuel : Nat) (s : St), TidyS s →
@@ -1139,8 +1136,9 @@ theorem register_tidy (s : St) (t : TowerId) (h : TidyS s) : TidyS (s.register t
     · exact hg.of_client (towerRegisters_client g t)
     · split
       · unfold St.recordRegistration
+        simp only [towerRegisters_client]
         exact ⟨hg.inv.addUpdateTower t t _, fun x => (addUpdateTower_tidy g.client t t _ x (hg.tidy x)).1⟩
-      · exact hg
+      · exact hg.of_client (towerRegisters_client g t)
 
 theorem manualRetry_tidy (s : St) (t : TowerId) (h : TidyS s) : TidyS (s.manualRetry t).1 := by
   unfold St.manualRetry
